@@ -1,5 +1,6 @@
 import NucleoVerif.Gen.TickPlan
 import NucleoVerif.Model.Nucleo
+import NucleoVerif.Props.C20_Translated
 /-! # C19 (companion file) — the plan of `Nucleo::tick` / `tick_inner`, translated from the source, is the model's
 
 `Gen/TickPlan.lean` is regenerated on every run from `src/lib.rs`: the order of the steps of `tick` and `tick_inner` (shape-checked
@@ -56,5 +57,15 @@ theorem C19_translated_tick (n : Nucleo) (o : TickOracle) :
 
 /-- the second `tick_inner` of a cancelling tick is called with `Status::Unchanged` -/
 theorem C19_translated_second_status : PStatus.unchanged.rank = Gen.TickPlan.second_inner_status := rfl
+
+/-- **`restart`**: the cancel flag is raised, the matcher moves to a fresh stream in state `Cleared`, and the snapshot is emptied (and
+    re-pointed at the new stream) exactly when `clear_snapshot` is set -/
+theorem C19_translated_restart (n : Nucleo) (clear : Bool) :
+    (n.restart clear).cancelFlag = true ∧ (n.restart clear).state.id = Gen.TickPlan.restart_state ∧
+    (n.restart clear).cur = n.nextStream ∧
+    (n.restart clear).snapshot =
+      if Gen.TickPlan.restart_clears_snapshot clear then { n.snapshot with itemCount := 0, hits := [], stream := n.nextStream } else n.snapshot := by
+  unfold Nucleo.restart Gen.TickPlan.restart_clears_snapshot
+  exact ⟨rfl, rfl, rfl, rfl⟩
 
 end NucleoVerif.Nu
